@@ -62,6 +62,7 @@ class LoopSummary:
         self.effects = []
         self.exits = []       # (kind, path condition, value) of every way through the body
         self.elem = None      # for range-for: (vector lvalue, by_ref)
+        self.discovered = None  # counter found by discover_induction (while loops)
 
     def __repr__(self):
         return '<Loop %s %s [%s,%s) %s>' % (self.id, self.node.where() if self.node else '?',
@@ -508,6 +509,14 @@ class SymEx:
                 comps = self.exec_block(s.k, 0, st)
                 falls = [c for c in comps if c.kind == 'fall']
                 others = [c for c in comps if c.kind != 'fall']
+                # file streams declared in this block are destroyed (closed) when it is left
+                fsd = [c for c in s.k if c is not None and c.op == 'decl' and 'fstream' in (c.a.get('type') or '')]
+                for d_ in fsd:
+                    for c in falls:
+                        v_ = c.state.env.get(d_.a['id'])
+                        if isinstance(v_, tuple) and v_ and v_[0] == 'stream':
+                            self.effect(c.state, 'streamop', stream=v_, name='close', args=[], implicit=True,
+                                        where=s.where(), node=d_.cid)
                 if not others and len(falls) == 1:
                     st = falls[0].state
                     continue
@@ -717,7 +726,18 @@ class SymEx:
         hdr = self.loop_header(st, s)
         body = s.k[-1] if s.op != 'do' else s.k[0]
         iterator_loop = False
-        if hdr is None:
+        disc = None
+        if hdr is None and s.op in ('while', 'for'):
+            try:
+                disc = self.discover_induction(st, s)
+            except AnalysisBroken:
+                disc = None
+        ls.discovered = disc
+        if disc is not None:
+            idx_root, lo, hi, elem = disc['root'], disc['lo'], disc['hi'], None
+            if disc.get('iter') is not None:
+                iterator_loop = disc['iter']
+        elif hdr is None:
             ls.regular = False
             ls.why = 'no counting header'
             idx_root, lo, hi, elem = None, None, None, None
@@ -737,6 +757,16 @@ class SymEx:
             T.RANGES[isym] = (lo, hi)
 
         def setup(state):
+            if disc is not None:
+                if s.op == 'for' and s.k[0] is not None:
+                    self.exec_block([s.k[0]], 0, state)
+                if disc['kind'] == 'up':
+                    state.refs.pop(idx_root, None)
+                    state.env[idx_root] = ('iter', iterator_loop, isym) if iterator_loop else isym
+                elif disc['kind'] == 'down':
+                    state.refs.pop(idx_root, None)
+                    state.env[idx_root] = sub(disc['v0'], isym)
+                return
             if idx_root is None:
                 return
             if elem is not None:
@@ -754,9 +784,158 @@ class SymEx:
 
         self.loop_idx.append(isym)
         try:
-            return self.exec_loop2(st, s, ls, hdr, body, idx_root, lo, hi, elem, isym, setup)
+            r = self.exec_loop2(st, s, ls, hdr if disc is None else ('disc', disc), body, idx_root, lo, hi,
+                                elem, isym, setup)
+            if disc is not None and disc['kind'] in ('up', 'down') and \
+                    (idx_root in st.env or idx_root in st.refs):
+                if disc['kind'] == 'up':
+                    fin = ('iter', iterator_loop, hi) if iterator_loop else hi
+                else:
+                    fin = sub(ZERO, ONE) if disc.get('cond_writes') else ZERO
+                self.write_nolog(st, ('lv', idx_root, ()), fin)
+            return r
         finally:
             self.loop_idx.pop()
+
+    def discover_induction(self, st, s):
+        """`while` loops and `for` loops without a plain counting header: find the counter by a trial
+        iteration.  Accepted forms (each verified with a symbolic counter value, so that the counter
+        advances by exactly one on every path through the body):
+          up:    a variable (integer or iterator) x with x' = x + 1 and condition x != H / x < H
+          down:  an integer n with n' = n - 1 and condition n != 0 / n > 0  (also `n--` in the condition)
+          size:  a vector V with |V|' = |V| + 1 and condition |V| < N / |V| != N
+        Returns a dict or None."""
+        if s.op == 'while':
+            init, cnode, inc, body = None, s.k[0], None, s.k[1]
+        else:
+            init, cnode, inc, body = s.k
+        if cnode is None:
+            return None
+        neff, nloops = len(self.effects), len(self.loops)
+        oldlog = self.writelog
+
+        def trial(prep):
+            self.writelog = set()
+            s0 = st.copy()
+            if init is not None:
+                self.exec_block([init], 0, s0)
+            prep(s0)
+            entry = s0.copy()
+            c = self.cond(s0, cnode)
+            aftercond = s0.copy()
+            comps = self.exec_block([body], 0, s0)
+            live = [x for x in comps if x.kind in ('fall', 'cont')]
+            if not live:
+                return None
+            if inc is not None:
+                for x in live:
+                    self.eval(x.state, inc)
+            after = self.merge([x.state for x in live], entry.pc) if len(live) > 1 else live[0].state
+            return entry, c, aftercond, after, set(self.writelog)
+
+        def value(state, root):
+            if root in state.refs:
+                return None
+            return state.env.get(root)
+
+        try:
+            t = trial(lambda st0: None)
+            if t is None:
+                return None
+            entry, c0, aftercond, after, wl = t
+            K = sym('__k%d' % len(self.loops))
+            for root, fpath in sorted(wl, key=str):
+                if fpath != ():
+                    continue
+                v0, v1 = value(entry, root), value(after, root)
+                if v0 is None or v1 is None:
+                    continue
+                kind = it = None
+                if isinstance(v0, tuple) and v0[0] == 'iter' and isinstance(v1, tuple) and v1[0] == 'iter' \
+                        and v1[1] == v0[1]:
+                    if v1[2] == add(v0[2], ONE):
+                        kind, it = 'up', v0[1]
+                elif isinstance(v0, tuple) and v0 and v0[0] in ('iter', 'obj', 'vec'):
+                    continue
+                elif v1 == add(v0, ONE):
+                    kind = 'up'
+                elif v1 == sub(v0, ONE):
+                    kind = 'down'
+                if kind is None:
+                    continue
+
+                def prep(st0, root=root, it=it):
+                    st0.refs.pop(root, None)
+                    st0.env[root] = ('iter', it, K) if it is not None else K
+                t2 = trial(prep)
+                if t2 is None:
+                    continue
+                e2, c, ac2, a2, _ = t2
+                n2 = value(a2, root)
+                exp = add(K, ONE) if kind == 'up' else sub(K, ONE)
+                if it is not None:
+                    exp = ('iter', it, exp)
+                if n2 != exp:
+                    continue
+                # the bound must not change during an iteration
+                a3 = a2.copy()
+                a3.env[root] = ('iter', it, K) if it is not None else K
+                save = self.writelog
+                c_again = self.cond(a3, cnode)
+                self.writelog = save
+                if c_again != c:
+                    continue
+                from .rules.common import norm_cond
+                cn = norm_cond(c)
+                if not (isinstance(cn, tuple) and len(cn) == 3 and cn[0] in ('!=', '<')):
+                    continue
+                opn, L, R = cn
+                if kind == 'up':
+                    if L == K and not occurs(R, K) and opn in ('!=', '<'):
+                        H = R
+                    elif R == K and not occurs(L, K) and opn == '!=':
+                        H = L
+                    else:
+                        continue
+                    lo = v0[2] if it is not None else v0
+                    return {'root': root, 'kind': 'up', 'lo': lo, 'hi': H, 'iter': it, 'v0': v0}
+                else:
+                    if opn == '!=' and ((L == K and R == ZERO) or (R == K and L == ZERO)):
+                        pass
+                    elif opn == '<' and L == ZERO and R == K:
+                        pass
+                    else:
+                        continue
+                    cw = value(ac2, root) != value(e2, root)
+                    return {'root': root, 'kind': 'down', 'lo': ZERO, 'hi': v0, 'iter': None, 'v0': v0,
+                            'cond_writes': cw}
+            # size of a vector as the counter
+            if cnode.op == 'bin' and cnode.a['o'] in ('<', '!=', '>'):
+                for side in (0, 1):
+                    a, b = cnode.k[side], cnode.k[1 - side]
+                    if not (a.op == 'mcall' and a.a.get('name') == 'size' and a.k):
+                        continue
+                    o = cnode.a['o']
+                    if (o == '<' and side != 0) or (o == '>' and side != 1):
+                        continue
+                    vlv = self.eval_lv(entry, a.k[0])
+                    if vlv is None:
+                        continue
+                    V0, V1 = self.read(entry, vlv), self.read(after, vlv)
+                    if size(V1) != add(size(V0), ONE):
+                        continue
+                    if not (isinstance(V1, tuple) and V1[0] == 'vpush' and V1[1] == V0):
+                        continue
+                    N0, N1 = self.eval(entry.copy(), b), self.eval(after.copy(), b)
+                    if N0 != N1:
+                        continue
+                    return {'root': None, 'kind': 'size', 'lo': size(V0), 'hi': N0, 'iter': None,
+                            'v0': V0, 'vec': vlv}
+            return None
+        finally:
+            self.writelog = oldlog
+            del self.effects[neff:]
+            del self.loops[nloops:]
 
     def exec_loop2(self, st, s, ls, hdr, body, idx_root, lo, hi, elem, isym, setup):
         # pass 1: which locations does the body write?
@@ -767,7 +946,10 @@ class SymEx:
         oldlog = self.writelog
         self.writelog = set()
         try:
-            if s.op in ('while', 'do') or hdr is None:
+            disc = hdr[1] if isinstance(hdr, tuple) and hdr and hdr[0] == 'disc' else None
+            if disc is not None:
+                self.eval(s1, s.k[1] if s.op == 'for' else s.k[0])
+            elif s.op in ('while', 'do') or hdr is None:
                 # evaluate condition/increment too, they may have effects
                 if s.op == 'for':
                     if s.k[0] is not None:
@@ -777,7 +959,7 @@ class SymEx:
                 elif s.op == 'while':
                     self.eval(s1, s.k[0])
             comps1 = self.exec_block([body], 0, s1)
-            if s.op == 'for' and hdr is None and s.k[2] is not None:
+            if s.op == 'for' and (hdr is None or disc is not None) and s.k[2] is not None:
                 for c in comps1:
                     if c.kind in ('fall', 'cont'):
                         self.eval(c.state, s.k[2])
@@ -807,6 +989,7 @@ class SymEx:
         s2 = st.copy()
         s2.pc = ()
         pres = {}
+        iter_wrapped = {}
         for root, fpath in carried:
             label = self.loc_label(st, root, fpath)
             pre = ('pre', ls.id, label)
@@ -820,12 +1003,34 @@ class SymEx:
                     T.SIZES[pre] = sz
             except Exception:
                 pass
-            self.write_nolog(s2, ('lv', root, fpath), pre)
+            itw = None
+            try:
+                c0_ = self.read(st, ('lv', root, fpath))
+                if isinstance(c0_, tuple) and c0_ and c0_[0] == 'iter' and merged1 is not None:
+                    c1_ = self.read(merged1, ('lv', root, fpath))
+                    if isinstance(c1_, tuple) and c1_ and c1_[0] == 'iter' and c1_[1] == c0_[1]:
+                        itw = c0_[1]
+            except Exception:
+                itw = None
+            if itw is not None:
+                # an iterator that stays inside one container: the carried quantity is its position
+                iter_wrapped[(root, fpath)] = itw
+                self.write_nolog(s2, ('lv', root, fpath), ('iter', itw, pre))
+            else:
+                self.write_nolog(s2, ('lv', root, fpath), pre)
+            if disc is not None and disc['kind'] == 'size' and ('lv', root, fpath) == disc['vec']:
+                T.SIZES[pre] = isym
         setup(s2)
         neff = len(self.effects)
         if hdr is None:
             ls.regular = False
+        if disc is not None:
+            self.eval(s2, s.k[1] if s.op == 'for' else s.k[0])
         comps = self.exec_block([body], 0, s2)
+        if disc is not None and s.op == 'for' and s.k[2] is not None:
+            for c in comps:
+                if c.kind in ('fall', 'cont'):
+                    self.eval(c.state, s.k[2])
         ls.effects = self.effects[neff:]
         del self.effects[neff:]
         ls.exits = [(c.kind, tuple(c.state.pc), c.val) for c in comps]
@@ -844,13 +1049,24 @@ class SymEx:
             lv = ('lv', root, fpath)
             nxt = self.read(merged, lv)
             x0 = self.read(st, lv)
-            info = {'loc': lv, 'pre': pre, 'next': nxt, 'init': x0, 'label': label}
+            itw = iter_wrapped.get((root, fpath))
+            if itw is not None:
+                if isinstance(nxt, tuple) and nxt and nxt[0] == 'iter' and nxt[1] == itw:
+                    nxt, x0 = nxt[2], x0[2]
+                else:
+                    nxt = ('havoc-iter', nxt, pre)
+            info = {'loc': lv, 'pre': pre, 'next': nxt, 'init': x0, 'label': label, 'iter_over': itw}
             if not ls.regular:
                 info['kind'] = 'havoc'
                 info['final'] = ('havoc', ls.id, label)
             else:
                 self.classify(ls, info, isym, lo, hi, all_pres, pres)
             ls.updates[label] = info
+            if disc is not None and disc['kind'] == 'size' and lv == disc['vec'] and \
+                    not (info.get('kind') == 'append' and info.get('guard', TRUE) == TRUE and
+                         not (isinstance(info.get('body'), tuple) and info['body'][:1] == ('tuple',))):
+                raise AnalysisBroken('loop at %s: the container whose size bounds the loop does not grow by '
+                                     'exactly one element per iteration' % s.where())
         # second step: substitute placeholders of element-wise maps / inits in reductions
         submap = {}
         for info in ls.updates.values():
@@ -886,7 +1102,10 @@ class SymEx:
                 info['guard'] = g
                 info['final'] = self.final_value(ls, info, isym, lo, hi)
         for info in ls.updates.values():
-            self.write(st, info['loc'], info['final'])
+            fin = info['final']
+            if info.get('iter_over') is not None:
+                fin = ('iter', info['iter_over'], fin)
+            self.write(st, info['loc'], fin)
         if ls.effects:
             self.effect(st, 'loop', loop=ls.id, idx=isym, lo=lo, hi=hi, body=ls.effects,
                         where=s.where())
@@ -1655,7 +1874,19 @@ class SymEx:
                 dst = vals[2] if len(vals) == 4 else vals[3]
             elif name in ('iota', 'stable_sort', 'sort', 'fill', 'reverse'):
                 dst = vals[0]
-            if isinstance(dst, tuple) and dst[0] == 'iter' and is_lv(dst[1]):
+            if name == 'copy' and len(vals) == 3 and all(isinstance(v_, tuple) and v_ and v_[0] == 'iter'
+                                                         for v_ in vals) and is_lv(dst[1]) and vals[0][1] == vals[1][1]:
+                # element-wise copy of [a, b) of the source to position c.. of the destination
+                a_, b_, c_ = vals
+                srcv = self.read(st, a_[1]) if is_lv(a_[1]) else a_[1]
+                cur = self.read(st, dst[1])
+                n_ = T.diff(b_[2], a_[2])
+                if c_[2] == ZERO and n_ == size(cur):
+                    new = srcv if (a_[2] == ZERO and b_[2] == size(srcv)) else ('vslice', srcv, a_[2], b_[2])
+                else:
+                    new = ('vcopy', cur, c_[2], srcv, a_[2], b_[2])
+                self.write(st, dst[1], new)
+            elif isinstance(dst, tuple) and dst[0] == 'iter' and is_lv(dst[1]):
                 cur = self.read(st, dst[1])
                 self.write(st, dst[1], ('alg', name, self.fresh('a'), cur) + tuple(vals))
             self.effect(st, 'ext', name='std::' + name, args=vals, where=e.where(), node=e.cid)
